@@ -31,7 +31,7 @@ def gen_case(rng, tier, i):
     prog = gen_program(rng, clock=clock, n_events=rng.randint(5, 60), bigint=True, fractional=True)
     # one case in four reaches the end through a bounded run first (the executed events must be the same; the horizon
     # rules themselves are C03's subject): the bound is a fraction of the run length added to the start time
-    return {"prog": prog, "via_bound": rng.choice([None, None, None, 0.25, 0.5, 0.75]) if i % 4 == 3 else None,
+    return {"prog": prog, "via_bound": rng.choice([None, None, None, 0.25, 0.5, 0.75, 1.25, 2.0]) if i % 4 == 3 else None,     # (a bound beyond the end is the end itself, events at the end included)
             "via_steps": i % 8 == 5}        # one case in eight is driven by step() alone
 
 
